@@ -13,30 +13,7 @@ int verif_outcome;
 #include "proc_funcs.c"
 #endif
 
-static CoreTiming g_ct; static MemoryInterface g_mem;
-#define INTERP_RIG(it, st) NONDET(RegisterState, st); Interpreter it; memset(&it, 0, sizeof it); it.core_timing = &g_ct; it.regs = &st; it.mem = &g_mem; verif_outcome = 0; \
-    NATIVE_ONLY(regs_make_wf(&st);) ASSUME(wf_regs(&st))
-#ifndef VERIF_CBMC
-/* native sampling: push random bytes into the hardware widths so that wf_regs accepts them */
-static void regs_make_wf(RegisterState *r)
-{
-    u64 *acc[6] = {&r->a.e[0], &r->a.e[1], &r->b.e[0], &r->b.e[1], &r->a1s, &r->b1s};
-    for (int i = 0; i < 6; i++) *acc[i] = (u64)sx40(*acc[i]);
-    u16 *f1[] = {&r->fz, &r->fm, &r->fn, &r->fv, &r->fe, &r->fc0, &r->fc1, &r->flm, &r->fvl, &r->fr, &r->sat, &r->sata, &r->s, &r->pe.e[0], &r->pe.e[1], &r->cpc, &r->crep, &r->ccnta,
-                 &r->stp16, &r->cmd, &r->epi, &r->epj, &r->ipv, &r->imv, &r->nimc, &r->ie, &r->iu.e[0], &r->iu.e[1]};
-    for (unsigned i = 0; i < sizeof f1 / sizeof f1[0]; i++) *f1[i] &= 1;
-    r->hwm &= 3; r->ps.e[0] &= 3; r->ps.e[1] &= 3; r->pc &= 0x3FFFF; r->prpage &= 15; r->pcmhi &= 3; r->page &= 0xFF; r->bcn %= 5; r->lp = r->bcn != 0; NORM_BOOL(r->rep);
-    for (int i = 0; i < 4; i++) { r->bkrep_stack.e[i].start &= 0x3FFFF; r->bkrep_stack.e[i].end &= 0x3FFFF; }
-    r->stepi &= 0x7F; r->stepj &= 0x7F; r->modi &= 0x1FF; r->modj &= 0x1FF; r->stepib &= 0x7F; r->stepjb &= 0x7F; r->modib &= 0x1FF; r->modjb &= 0x1FF;
-    for (int i = 0; i < 8; i++) { r->m.e[i] &= 1; r->br.e[i] &= 1; }
-    for (int i = 0; i < 4; i++) { r->arstep.e[i] &= 7; r->arpstepi.e[i] &= 7; r->arpstepj.e[i] &= 7; r->aroffset.e[i] &= 3; r->arpoffseti.e[i] &= 3; r->arpoffsetj.e[i] &= 3; r->arrn.e[i] &= 7; r->arprni.e[i] &= 3; r->arprnj.e[i] &= 3; }
-    for (int i = 0; i < 3; i++) { r->ip.e[i] &= 1; r->im.e[i] &= 1; r->ic.e[i] &= 1; }
-    for (int i = 0; i < 5; i++) r->ou.e[i] &= 1;
-    r->mod0_unk_const &= 7;
-}
-#endif
-#define CHECK_ST(st, expr, name) NATIVE_ONLY(CHECK(eqv_regs(st, (expr)) && wf_regs(&st), name ".postcondition");)
-#define FIELD(x, n, bits) NONDET(u16, n##_v); OPV(x) = (u16)(n##_v & ((1u << (bits)) - 1))
+#include "interp_rig.h"
 
 HARNESS(h_AddSub)
 {
@@ -103,7 +80,6 @@ HARNESS(h_Moda)
     CHECK_ST(st, spec_cond(old, (CondValue)(cv & 15)) ? spec_moda(old, (ModaOp)op, fam) : old, "Interpreter_Moda");
     OUT(st); CANARY();
 }
-#define FORM_HARNESS(hname, call, specexpr, decls, cname) HARNESS(hname) { INTERP_RIG(it, st); decls; NATIVE_ONLY(RegisterState old = st;) call; CHECK_ST(st, specexpr, cname); OUT(st); CANARY(); }
 #define ALMOPDECL EnumOperand_AlmOp_0_1_2_3_4_5_6_7_8_9_10_11_12_13_14_15 op; NONDET(u16, op_v); NATIVE_ONLY(op_v %= 16; if (!alm_in_c03((AlmOp)op_v)) op_v = 7;) ASSUME(op_v < 16 && alm_in_c03((AlmOp)op_v)); OPV1(op) = op_v
 #define ALUOPDECL EnumOperand_AlmOp_0_1_2_3_16_16_6_7 op; NONDET(u16, op_v); NATIVE_ONLY(op_v %= 8; if (op_v == 4 || op_v == 5) op_v = 1;) ASSUME(op_v < 8 && op_v != 4 && op_v != 5); OPV1(op) = op_v
 FORM_HARNESS(h_alm_r6, Interpreter_alm_r6(&it, op, b), spec_alm(old, (AlmOp)op_v, spec_extend((AlmOp)op_v, old.r.e[6]), ax_fam(b)), ALMOPDECL; Ax b; FIELD(b, b, 1), "Interpreter_alm_r6")
